@@ -24,6 +24,9 @@ def run(tier, seed, pid='C16', pack=None):
              (S.suitesparse_linsolve(pid, 'UMFPACKSolver', 'umfpack'),), (S.spsolve_solve(pid), None, S.replay_solvers), (S.refresh_symbolic(pid),), (S.spmatrix_to_csc(pid),),
              (S.solver_dispatch(pid, 'solve'), None, S.replay_dispatch), (S.solver_dispatch(pid, 'linsolve'), None, S.replay_dispatch)]
     run_contracts(pack, items)
+    # the two accumulation modes of the island patch of gy leave the same diagonal (in place: ipset; rebuild: gy + spmatrix)
+    from contracts import C03_assembly as A3
+    run_contracts(pack, [(A3.j_islands(pid), None, A3.replay_j_islands), (A3.j_islands_rebuild(pid), None, A3.replay_j_islands)])
     if own:
         from contracts.packutil import native_guard
         from contracts import bounded_backends as BB
